@@ -29,19 +29,23 @@ CLAIMED = {
         note="writer side relies on C06's check for arbitrary API records; record-level lifting of the field theorem is by correspondence",
         design="§6 C05"),
     "C06": dict(
-        technique="Lean 4 proof (what Strict validation lets through renders to a line Strict parsing accepts; refusals are the format exception; sorting path through the codec) + differential correspondence of API-built records + write-then-read oracle",
+        technique="Lean 4 proof (what Strict validation lets through renders to a line Strict parsing accepts; refusals are the format exception; sorting path through the codec) + __validate__ hook bodies translated from the source each run (PyIR) and proved equal to the model + differential correspondence of API-built records + write-then-read oracle",
         text=("Theorems over the model of MafRecord.validate / MafColumnRecord.validate(scheme) / Writer.write / Writer.close for every record in the PyVal universe (any column class, index, value type): "
               "C06.emitted_line_accepted (a direct Strict writer's emitted line is read back by Strict from_line with no error, for custom, plain and mixed schemes, including sub-class columns through the twin check), "
               "validate_ok_shape, queue_validated, close_lines_accepted, sorted_writer_lines_accepted (a sorting Strict writer fed any mix of accepted and refused records, then closed), nullable_subclass_refused; refusals are PyErr.format. "
-              "Tied by col.api / writer.run on records with every deviation kind; the oracle feeds every emitted line to a Strict reader and requires refusals to be the library's format exception with no bytes written."),
-        note="sorting-path theorems are stated for schemes of custom column types (unrestricted/mixed schemes on the sorting path are covered by the correspondence only); FloatHost laws assumed and checked on the run's graph",
+              "Tied by col.api / writer.run on records with every deviation kind; the oracle feeds every emitted line to a Strict reader and requires refusals to be the library's format exception with no bytes written. "
+              "Tie by translation: the __validate__ method bodies of maflib/column_types.py are translated from the working tree on every run into PyIR terms (Generated/Bodies.lean) and C06Bodies.validate_* "
+              "(59 theorems) state that interpreting them - real MRO dispatch, super(), constant hooks of the instance's class - equals the hand model's verdict over the regenerated class table for every value, "
+              "for every column class whose hook does not iterate over its value; the interpreter itself is validated against the real methods on every run (body.validate / body.build)."),
+        note="the hooks that iterate over a symbolic string / list (NullableDnaString, DnaString, SequenceOfValuesColumn and sub-classes) are tied by differential execution only; sorting-path theorems are stated for schemes of custom column types (unrestricted/mixed schemes on the sorting path are covered by the correspondence only); FloatHost laws assumed and checked on the run's graph",
         design="§6 C06"),
     "C08": dict(
-        technique="Lean 4 proof (total preorder of the key comparison, operator agreement, totality on well-formed records) + differential correspondence",
+        technique="Lean 4 proof (total preorder of the key comparison, operator agreement, totality on well-formed records) + SortOrderKey.compare translated from the source each run (PyIR) and proved equal to the model's cmpKV + differential correspondence",
         text=("Lean theorems on the model of SortOrderKey.compare / _CoordinateKey / _BarcodesAndCoordinateKey: keys built by one (order, contigs) from well-formed records always compare, "
               "the comparison is reflexive, antisymmetric, transitive and total, the six total_ordering operators agree with it, it is the documented lexicographic order with None last, "
-              "numeric positions and contig rank, and a chromosome missing from the contig list is ValueError. Tied by comparing all six operators on typed records, scheme-less records and plain locatables."),
-        note="key construction and comparison bodies are hand-modelled; Python's str comparison is modelled as code-point lexicographic order",
+              "numeric positions and contig rank, and a chromosome missing from the contig list is ValueError. Tied by comparing all six operators on typed records, scheme-less records and plain locatables. Tie by translation: SortOrderKey.compare is translated from the working tree on every run "
+              "(Generated/Bodies.lean) and C08Bodies.compare_eq_cmpKV states that interpreting it equals the model's cmpKV for every pair of components (None last, sign of the difference, TypeError on int vs text)."),
+        note="key construction (__init__) and the __cmp__ chains are hand-modelled (translated and executed against the implementation, not proved); Python's str comparison is modelled as code-point lexicographic order",
         design="§6 C08"),
     "C15": dict(
         technique="Lean 4 proof (invariant by induction over edit histories) + differential correspondence of edit histories + coherence oracle",
